@@ -173,7 +173,7 @@ func (o *Opts) Env(maxN int) *ordered.MapSA {
 	r := o.R
 	m := ordered.NewMap[string, any](4)
 	for i := r.Intn(maxN + 1); i > 0; i-- {
-		m.Set(core.Pick(r, []string{"FOO", "BAR", "PATH", "A", "B_1", "lower", "Mixed", "X"})+core.Pick(r, []string{"", "", "_2"}), o.strish())
+		m.Set(core.Pick(r, []string{"FOO", "BAR", "PATH", "A", "B_1", "lower", "Mixed", "X", "node_version", "env", "e", "version", "vv", "nn", "ee", "env_", "command", "é"})+core.Pick(r, []string{"", "", "_2"}), o.strish())
 	}
 	return m
 }
